@@ -113,51 +113,59 @@ Definition array_kind_ok (k : option str) : bool :=
   | Some n => str_eqb n s_garray || str_eqb n s_gbytearray || str_eqb n s_gptrarray
   end.
 
-(* _parse_type_simple on an element; _parse_type on the children of an element (the first <callback>, else the first <array>,
-   else <varargs>, else <type>); None stands for an AssertionError or KeyError of the reader.  The recursion is on the
-   XML tree; `pick` is _parse_type spelled out over the child list. *)
+(* first result among the children whose tag is t *)
+Fixpoint find_res (t : str) (tags : list str) (res : list (option aty)) : option (option aty) :=
+  match tags, res with
+  | g :: tr, r :: rr => if str_eqb g t then Some r else find_res t tr rr
+  | _, _ => None
+  end.
+
+(* _parse_type(node): node.find('callback'), then 'array', 'varargs', 'type'; None when there is none (an AssertionError)
+   or when the chosen child cannot be read *)
+Definition pick (tags : list str) (res : list (option aty)) : option aty :=
+  match find_res s_callback tags res with
+  | Some r => r
+  | None => match find_res s_array tags res with
+            | Some r => r
+            | None => match find_res s_varargs tags res with
+                      | Some r => r
+                      | None => match find_res s_type tags res with Some r => r | None => None end
+                      end
+            end
+  end.
+
+(* the <type> and <array> children, in document order *)
+Fixpoint sel_types (tags : list str) (res : list (option aty)) : list (option aty) :=
+  match tags, res with
+  | g :: tr, r :: rr => if str_eqb g s_type || str_eqb g s_array then r :: sel_types tr rr else sel_types tr rr
+  | _, _ => []
+  end.
+
+Definition read_num (o : option str) (empty_is_none : bool) : option (option N) :=
+  match o with
+  | None => Some None
+  | Some [] => if empty_is_none then Some None else None
+  | Some f => match undec f with Some n => Some (Some n) | None => None end
+  end.
+
+(* _parse_type_simple on an element (with _parse_type_array_length for the length index); None stands for an AssertionError,
+   KeyError or ValueError of the reader.  Every child is read; only the ones the reader looks at are used (a child it does
+   not look at cannot make it fail). *)
 Fixpoint read_ty (ns : str) (x : xt) : option aty :=
   match x with
   | XT tag a kids =>
-      let first (l : list xt) : option aty :=
-        (* _parse_type(node): node.find('callback'), then 'array', 'varargs', 'type' *)
-        (fix cb (l0 : list xt) : option aty :=
-           match l0 with
-           | [] =>
-               (fix ar (l1 : list xt) : option aty :=
-                  match l1 with
-                  | [] =>
-                      (fix va (l2 : list xt) : option aty :=
-                         match l2 with
-                         | [] =>
-                             (fix ty (l3 : list xt) : option aty :=
-                                match l3 with
-                                | [] => None
-                                | y :: r => if str_eqb (tag_of y) s_type then read_ty ns y else ty r
-                                end) l
-                         | y :: r => if str_eqb (tag_of y) s_varargs then read_ty ns y else va r
-                         end) l
-                  | y :: r => if str_eqb (tag_of y) s_array then read_ty ns y else ar r
-                  end) l
-           | y :: r => if str_eqb (tag_of y) s_callback then read_ty ns y else cb r
-           end) l in
+      let tags := map tag_of kids in
+      let res := map (read_ty ns) kids in
       if str_eqb tag s_callback then
         match attr s_name a with Some n => Some (type_from_name ns n (attr s_ctype a)) | None => None end
       else if str_eqb tag s_array then
         let kind := attr s_name a in
         if negb (array_kind_ok kind) then None else
-        match first kids with
+        match pick tags res with
         | None => None
         | Some e =>
             let zero := match attr s_zero a with Some z => negb (str_eqb z [48]) | None => true end in
-            match (match attr s_fixed a with
-                   | None | Some [] => Some None
-                   | Some f => match undec f with Some n => Some (Some n) | None => None end
-                   end),
-                  (match attr s_length a with
-                   | None => Some None
-                   | Some f => match undec f with Some n => Some (Some n) | None => None end
-                   end) with
+            match read_num (attr s_fixed a) true, read_num (attr s_length a) false with
             | Some size, Some len => Some (AArray kind (attr s_ctype a) zero size len e)
             | _, _ => None
             end
@@ -170,17 +178,11 @@ Fixpoint read_ty (ns : str) (x : xt) : option aty :=
         | Some name =>
             if str_eqb name s_glist || str_eqb name s_gslist then
               (* the list of tags the reader looks for has "    varargs" in it: a <varargs/> child alone is not found *)
-              if existsb (fun y => str_eqb (tag_of y) s_callback || str_eqb (tag_of y) s_array || str_eqb (tag_of y) s_type) kids
-              then match first kids with Some e => Some (AList name ctype e) | None => None end
+              if existsb (fun g => str_eqb g s_callback || str_eqb g s_array || str_eqb g s_type) tags
+              then match pick tags res with Some e => Some (AList name ctype e) | None => None end
               else Some (AList name ctype type_any)
             else if str_eqb name s_ghash then
-              let subs := (fix sel (l : list xt) : list (option aty) :=
-                             match l with
-                             | [] => []
-                             | y :: r => if str_eqb (tag_of y) s_type || str_eqb (tag_of y) s_array
-                                         then read_ty ns y :: sel r else sel r
-                             end) kids in
-              match subs with
+              match sel_types tags res with
               | [] => Some (AMap ctype type_any type_any)
               | [Some k] => Some (AMap ctype k type_any)
               | Some k :: Some v :: r => if forallb (fun o => match o with Some _ => true | None => false end) r
